@@ -188,7 +188,14 @@ def brk_tmpl_fatal(rng: Rng, text: str) -> str:
 
 
 def jinja_ok(rng: Rng, text: str) -> str:
-    kind = rng.choice(["set", "for", "if", "comment"])
+    kind = rng.choice(["set", "for", "if", "comment", "ifelse", "ifelse", "ifelse"])
+    if kind == "ifelse":
+        # the branch that is NOT rendered is linted through an alternate template variant; it holds
+        # several violations at one and the same position (implicit + unused alias)
+        return (
+            text.rstrip("\n")
+            + "\n;\n\n{% if true %}\nSELECT a\nFROM tbl\n{% else %}\nSELECT c.a\nFROM tbl_c c, tbl_d d\n{% endif %}\n"
+        )
     if kind == "set":
         pre = "{% set colname = 'a' %}\n"
         return pre + text.rstrip("\n") + "\n;\n\nSELECT {{ colname }}\nFROM tbl\n"
@@ -457,6 +464,26 @@ def gen_fix_world(rng: Rng, feats: Optional[dict] = None) -> dict:
         m.update({"encoding": enc, "newline": nl, "dir": d, "chars": len(text), "bytes": len(data)})
         files[rel] = {"b64": b64(data), "mode": rng.choice(f["modes"])}
         meta[rel] = m
+    f.setdefault("feu", 0.0)
+    if f["feu"] and rng.chance(f["feu"]):
+        # fix_even_unparsable switched on for ONE directory (nested config) or ONE file (inline directive)
+        # only: whatever that means for the opted-in files, it must not open the gate for any other file
+        sub = [d for d in dirs[1:] if any(m_["dir"] == d for m_ in meta.values())]
+        if sub and rng.chance(0.5):
+            d = rng.choice(sub)
+            nested.setdefault(d, {})["fix_even_unparsable"] = "True"
+            files["proj/%s/.sqlfluff" % d] = {"b64": b64(ini({"sqlfluff": nested[d]})), "mode": 0o644}
+            for rel_, m_ in meta.items():
+                if m_["dir"] == d or m_["dir"].startswith(d + "/"):
+                    m_["feu"] = True
+        else:
+            rel_ = rng.choice(sorted(meta))
+            m_ = meta[rel_]
+            if m_.get("encoding", "utf-8") == "utf-8" and m_.get("newline", "lf") == "lf":
+                data_ = b"-- sqlfluff:fix_even_unparsable:True\n" + unb64(files[rel_]["b64"])
+                files[rel_]["b64"] = b64(data_)
+                m_["feu"] = True
+                m_["bytes"] = len(data_)
     bait = None
     if f["bait"] and rng.chance(f["bait"]):
         # "latch bait": two files whose violations depend on a per-file fact that is NOT part of
